@@ -585,19 +585,35 @@ func TestVerif_C12_UDPMuxModel(t *testing.T) {
 				ops = append(ops, "muxClose")
 			}
 			drainAll(where)
-			// address bindings of removed/closed connections must be gone
+			// address bindings of removed/closed connections must be gone. The mux's close watcher removes them
+			// asynchronously (registration first, bindings second), so this is a bounded wait, not a snapshot.
 			if !muxClose {
-				mux.addressMapMu.Lock()
-				for a, mc := range mux.addressMap {
-					for _, x := range conns {
-						if x.under == mc && x.removed {
-							mux.addressMapMu.Unlock()
-							st.Fail(rt, "C12/bindings/stale-after-removal", "%s: address %s is still bound to removed connection %s(v6=%v)\nops: %s", where, a, x.ufrag, x.v6, strings.Join(ops, "; "))
-							mux.addressMapMu.Lock()
+				stale := func() (netip.AddrPort, *c12ModelConn) {
+					mux.addressMapMu.Lock()
+					defer mux.addressMapMu.Unlock()
+					for a, mc := range mux.addressMap {
+						for _, x := range conns {
+							if x.under == mc && x.removed {
+								return a, x
+							}
 						}
 					}
+
+					return netip.AddrPort{}, nil
 				}
-				mux.addressMapMu.Unlock()
+				deadline := time.Now().Add(20 * time.Second)
+				for {
+					a, x := stale()
+					if x == nil {
+						break
+					}
+					if time.Now().After(deadline) {
+						st.Fail(rt, "C12/bindings/stale-after-removal", "%s: address %s is still bound to removed connection %s(v6=%v)\nops: %s", where, a, x.ufrag, x.v6, strings.Join(ops, "; "))
+
+						break
+					}
+					runtime.Gosched()
+				}
 			}
 		}
 		var labels []string
